@@ -680,7 +680,7 @@ async fn router(sh: Arc<Shared>, r: RouterCfg) {
 
 //------------ Chaos: source operations and transport faults -------------------------
 
-async fn chaos(sh: Arc<Shared>, uni: Arc<Universe>, mut notify: Option<NotifySender>, ops: u32, fault_kinds: [bool; 6]) {
+async fn chaos(sh: Arc<Shared>, uni: Arc<Universe>, mut notify: Option<NotifySender>, ops: u32, fault_kinds: [bool; 8]) {
     let ctx = sh.ctx.clone();
     for _ in 0..ops {
         if sh.failed() {
@@ -793,7 +793,7 @@ async fn chaos(sh: Arc<Shared>, uni: Arc<Universe>, mut notify: Option<NotifySen
                     Some(c) => c,
                     None => continue,
                 };
-                let enabled: Vec<usize> = (0..6).filter(|k| fault_kinds[*k]).collect();
+                let enabled: Vec<usize> = (0..8).filter(|k| fault_kinds[*k]).collect();
                 if enabled.is_empty() {
                     continue;
                 }
@@ -846,6 +846,24 @@ async fn chaos(sh: Arc<Shared>, uni: Arc<Universe>, mut notify: Option<NotifySen
                         *conn.stall_c2s.lock().unwrap() = Some(Instant::now() + Duration::from_millis(d));
                         sh.bump(if d > 10_000 { "fault_long_stall_c2s" } else { "fault_stall_c2s" });
                         ctx.ev(45, 5, || format!("t={}ms FAULT c->s stalls for {}ms", sh.now_ms(), d));
+                    }
+                    6 => {
+                        // client->server stream ends, bytes in flight are lost
+                        // (the query never arrives; the server sees EOF)
+                        let mut p = conn.c2s.lock().unwrap();
+                        let lost = p.outbox.len();
+                        p.n_dropped += lost as u64;
+                        p.outbox.clear();
+                        p.close_writer();
+                        sh.bump("fault_eof_c2s_with_loss");
+                        ctx.ev(45, 6, || format!("t={}ms FAULT c->s cut, {} bytes lost", sh.now_ms(), lost));
+                    }
+                    7 => {
+                        // half-close: the server sees EOF on its read side while
+                        // it may still be writing a response
+                        conn.c2s.lock().unwrap().close_writer();
+                        sh.bump("fault_half_close_c2s");
+                        ctx.ev(45, 7, || format!("t={}ms FAULT c->s half-closed (in flight: {})", sh.now_ms(), in_flight));
                     }
                     _ => {}
                 }
@@ -930,7 +948,7 @@ impl C06 {
                 routers.push(RouterCfg { id, initial_version, init, steps });
             }
             let ops = if sweep.is_some() { (sweep.unwrap() / 54) as u32 % 3 } else { t.choose(if deep { 28 } else { 10 }) as u32 };
-            let mut fk = [false; 6];
+            let mut fk = [false; 8];
             if faulty {
                 for k in fk.iter_mut() {
                     *k = t.chance(1, 2);
